@@ -80,9 +80,15 @@ def cases(tier, seed):
     return out
 
 
+_CALLS = [0]
+
+
 def _call(masses, tol):
     import mofun.helpers as mh
     try:
+        _CALLS[0] += 1
+        if _CALLS[0] % 2:
+            return mh.guess_elements_from_masses(masses, tol), None          # by position, documented order
         return mh.guess_elements_from_masses(masses, max_delta=tol), None
     except Exception as e:
         if type(e).__name__ == "PostBroken":
@@ -199,7 +205,11 @@ def run_case(case, ctx):
     else:
         tol = 0.1   # documented default of load_lmpdat
     try:
-        b = Atoms.load_lmpdat(io.StringIO(text), **kw)
+        if case.get("s", 1) % 2 and "guess_atol" in kw:
+            b = Atoms.load_lmpdat(io.StringIO(text), kw["atom_format"], kw["guess_atol"])      # by position, documented order
+            st.count("files_loaded_with_positional_options")
+        else:
+            b = Atoms.load_lmpdat(io.StringIO(text), **kw)
     except Exception as e:
         if type(e).__name__ == "PostBroken":
             raise
